@@ -254,6 +254,9 @@ class Perturb:
         self.prio: dict[int, float] = {}
         # {"p": .., "sleep": ..}: the thread loses the CPU right AFTER a statement that signals / publishes / hands over
         # (event.set, queue.put, pool.submit, lock release, dict.clear ...): the classic shape of "set the flag, then store the reason"
+        self.slow = spec.get("slow_thread")  # {"re": thread-name regex, "sleep": s}: every statement that thread executes takes that long
+        self.slow_re = re.compile(self.slow["re"]) if self.slow else None
+        self.slow_cache: dict[int, bool] = {}
         self.after_sync = spec.get("after_sync")
         self.after: dict[int, bool] = {}
         self.sync_lines: dict[tuple, bool] = {}
@@ -276,6 +279,15 @@ class Perturb:
                 r = self.rng.random()
                 r2 = self.rng.random()
                 r3 = self.rng.random()
+            if self.slow_re is not None:
+                tid = threading.get_ident()
+                sl = self.slow_cache.get(tid)
+                if sl is None:
+                    sl = self.slow_cache[tid] = bool(self.slow_re.search(threading.current_thread().name))
+                if sl:
+                    self.hits += 1
+                    _time.sleep(self.slow.get("sleep", 0.001))
+                    return None
             if self.after_sync:
                 tid = threading.get_ident()
                 was = self.after.pop(tid, False)
